@@ -101,7 +101,8 @@ func c12Script(k int, tag string, seedRng *Rng, cfg Config, steps int, paths []s
 		obs := w.Observe(ObsOpts{Queries: qs, PerUUID: per})
 		// integrity check once no write is pending: right after a flush
 		// or a close/reopen, which leave nothing pending in any configuration
-		if kind == "flush" || kind == "reopen" {
+		// (a single-object flush leaves the other pending writes pending)
+		if (kind == "flush" && !strings.HasPrefix(w.absOps[len(w.absOps)-1], "flush1:")) || kind == "reopen" {
 			var err error
 			w.call("Control", func() { err = w.db.Control() })
 			obs["control"] = errClass(err)
